@@ -31,6 +31,8 @@ type C07Case struct {
 	Unary     int    `json:"unary"`   // bystander unary calls
 	Streams   int    `json:"streams"` // bystander ping-pong streams
 	Tape      []byte `json:"tape"`
+	// ParkSend: when the cancellation lands, one SendMsg of the caller is parked inside the transport write
+	ParkSend bool `json:"park_send,omitempty"`
 }
 
 func genC07(t *rapid.T) C07Case {
@@ -54,6 +56,7 @@ func genC07(t *rapid.T) C07Case {
 	c.Unary = rapid.IntRange(0, 2).Draw(t, "unary")
 	c.Streams = rapid.IntRange(0, 1).Draw(t, "streams")
 	c.Tape = rapid.SliceOfN(rapid.Byte(), 0, 24).Draw(t, "tape")
+	c.ParkSend = c.Kind != kit.KindServer && !c.Close && rapid.IntRange(0, 3).Draw(t, "park_send") == 0
 	return c
 }
 
@@ -118,6 +121,7 @@ type c07Run struct {
 	post                []kit.ErrObs // results of the receives issued after the cancellation (data = Nil with Raw digest)
 	postData            [][]byte
 	sendAfter           kit.ErrObs
+	parkedSend          kit.ErrObs
 	headerAfter         bool // Header() returned
 	resetSeen           bool
 	trailerBeforeCancel bool
@@ -195,6 +199,7 @@ func runC07(t *testing.T, c C07Case, pos int) *c07Run {
 				}
 			}
 			r.sendAfter = kit.Observe(kit.SendBytes(cs, []byte("late")))
+			_ = cs.Trailer() // permitted once a receive has failed
 			if c.Header {
 				_, _ = cs.Header()
 				r.headerAfter = true
@@ -254,6 +259,18 @@ func runC07(t *testing.T, c C07Case, pos int) *c07Run {
 				r.trailerBeforeCancel = true
 			}
 		}
+		parkedDone := make(chan struct{})
+		if c.ParkSend && r.openErr == nil && cs != nil {
+			// a slow transport write (legal) in which the caller's SendMsg sits when the context ends
+			l.A.Hold(func(x *kit.Rpc) bool { return string(unwrapBytes(x.GetBody().GetData())) == "parked" })
+			go func() {
+				defer close(parkedDone)
+				r.parkedSend = kit.Observe(kit.SendBytes(cs, []byte("parked")))
+			}()
+			kit.Settle()
+		} else {
+			close(parkedDone)
+		}
 		if c.Deadline {
 			dl, _ := ctx.Deadline()
 			time.Sleep(time.Until(dl) + time.Millisecond)
@@ -261,6 +278,7 @@ func runC07(t *testing.T, c C07Case, pos int) *c07Run {
 			cancel()
 		}
 		kit.Settle()
+		l.A.Hold(nil)
 		l.ReleaseAll()
 		kit.Settle()
 		close(cancelled)
@@ -365,6 +383,10 @@ func judgeC07(c C07Case, pos int, r *c07Run) string {
 	if !isCtxFlavoured(r.sendAfter, c.Deadline) && !r.sendAfter.EOF {
 		return fmt.Sprintf("%s: a send after the cancellation failed with %q, want the context's error", tag, r.sendAfter.Raw)
 	}
+	if c.ParkSend && r.parkedSend.Nil && r.parkedSend.Err() == nil && r.parkedSend.Raw == "" && !r.trailerBeforeCancel {
+		// zero value: the parked send never returned
+		return fmt.Sprintf("%s: a SendMsg parked in the transport write did not return after the cancellation", tag)
+	}
 	if c.Header && !r.headerAfter {
 		return fmt.Sprintf("%s: Header() blocked after the cancellation", tag)
 	}
@@ -423,7 +445,7 @@ func execC07(t *testing.T, c C07Case) (v Verdict) {
 	}
 	unread := c.NH - c.Read
 	labels := []string{"kind=" + kit.KindNames[c.Kind], fmt.Sprintf("unread=%d", unread), fmt.Sprintf("deadline=%v", c.Deadline),
-		fmt.Sprintf("bystanders=%d", c.Unary+c.Streams), "htmpl=" + c.HTmpl, fmt.Sprintf("close=%v", c.Close)}
+		fmt.Sprintf("bystanders=%d", c.Unary+c.Streams), "htmpl=" + c.HTmpl, fmt.Sprintf("close=%v", c.Close), fmt.Sprintf("park_send=%v", c.ParkSend)}
 	if unread >= 3 {
 		labels = append(labels, "unread>=3")
 	}
